@@ -14,3 +14,7 @@ pub use self::{
 mod control_points;
 pub(crate) mod decode; // pub(crate) for intradoc-links
 mod effect_flags;
+
+#[cfg(maxohn_rosu_map_verif)]
+#[doc(hidden)]
+pub use self::decode::verif_hooks as verif_decode;
